@@ -99,6 +99,14 @@ pub enum Op {
     Exhaust { order: u8, class: u8, slot: SlotSel },
     /// Free every held block whose index bit is set in the (repeating) mask
     FreeSubset { mask: u32, class: u8, slot: SlotSel },
+    /// Free every held block that lies in one tree: the first reserved tree (`reserved`), else
+    /// the tree picked by the fraction
+    FreeTree {
+        reserved: bool,
+        tree: Frac,
+        class: u8,
+        slot: SlotSel,
+    },
     /// Drain, then one checked allocation (C10)
     DrainCheck {
         class: u8,
@@ -126,6 +134,7 @@ pub struct Weights {
     pub change_offline_full: u32,
     pub exhaust: u32,
     pub free_subset: u32,
+    pub free_tree: u32,
     pub drain_check: u32,
     pub handoff: u32,
     pub validate: u32,
@@ -155,6 +164,7 @@ impl Weights {
             change_offline_full: 0,
             exhaust: 2,
             free_subset: 2,
+            free_tree: 1,
             drain_check: 0,
             handoff: 0,
             validate: 0,
@@ -363,6 +373,17 @@ pub fn op_strategy(w: &Weights) -> BoxedStrategy<Op> {
         w.free_subset,
         (any::<u32>(), class(), slot_strategy())
             .prop_map(|(mask, class, slot)| Op::FreeSubset { mask, class, slot })
+            .boxed(),
+    ));
+    alts.push((
+        w.free_tree,
+        (any::<bool>(), any::<u16>(), class(), slot_strategy())
+            .prop_map(|(reserved, tree, class, slot)| Op::FreeTree {
+                reserved,
+                tree,
+                class,
+                slot,
+            })
             .boxed(),
     ));
     alts.push((
